@@ -1,10 +1,10 @@
 SPECIFICATION Spec
 CONSTANTS
   MaxRanges = 2
-  MaxOffers = 2
-  QSet = {0, 500, 1000}
-  PSets <- PSmall
-  TokMaxRanges = 3
+  MaxOffers = 3
+  QSet = {0, 500, 800, 1000}
+  PSets <- PFull
+  TokMaxRanges = 2
 INVARIANT Emit
 INVARIANT ZeroNeverSelects
 INVARIANT AbsentSelectsFirst
